@@ -89,7 +89,7 @@ def gen_rust_history(hid, rng, tier, extras):
 def rand_key(rng, U):
     r = rng.random()
     if r < 0.08:
-        return rng.choice([-1, -5, U, U + 3, 2**62, -(2**62)])
+        return rng.choice([-1, -5, U, U + 3, 2**60, -(2**60)])
     return rng.randrange(U)
 
 
@@ -225,3 +225,159 @@ def gen_arena_history(hid, rng, tier):
 def gen_arena(seed, shard, n_hist, tier):
     rng = random.Random(f"C16-{seed}-{shard}")
     return [gen_arena_history(f"{shard}.{i}", rng, tier) for i in range(n_hist)]
+
+
+# ---------------------------------------------------------------------------- C14 / C15
+BIG = 10 ** 9
+
+
+def build_valid(h, rng, cap):
+    """a history that builds a multi-level map; returns nothing (ops appended to h)"""
+    n = rng.choice([0, 3, cap, 3 * cap, 8 * cap, 20 * cap])
+    U = max(4, n * 2)
+    for _ in range(n):
+        h.add(f"I {rng.randrange(U)} {h.sid} {h.sid * 10}")
+        h.sid += 1
+    for _ in range(rng.choice([0, 0, n // 4, n // 2])):
+        h.add(f"R {rng.randrange(U)}")
+    return U
+
+
+DAMAGE_KINDS = ["unsorted_leaf", "unsorted_branch", "dup_leaf", "dup_branch", "count_vpop", "count_kpop",
+                "count_pushk", "overfill", "underfill_leaf", "underfill_branch", "keyout_lo", "keyout_hi",
+                "child_pop", "child_dup", "badref_child", "badref_root", "chain_trunc", "chain_skip",
+                "chain_misorder", "chain_unalloc", "orphan_leaf", "orphan_branch", "none"]
+
+
+def damage_lines(kind, rng, cap, h):
+    p = rng.choice([0, 0, 1, 1, 2, 3, 5])
+    bp = rng.choice([0, 0, 1, 2])
+    if kind == "unsorted_leaf":
+        return [rng.choice([f"DMG LK {p} 1 {-BIG}", f"DMG LK {p} 0 {BIG}"])]
+    if kind == "unsorted_branch":
+        return [rng.choice([f"DMG BK {bp} 1 {-BIG}", f"DMG BK {bp} 0 {BIG}"])]
+    if kind == "dup_leaf":
+        i = rng.choice([0, 1])
+        return [f"DMG LKC {p} {i + 1} {i}"]
+    if kind == "dup_branch":
+        return [f"DMG BKC {bp} 1 0"]
+    if kind == "count_vpop":
+        return [f"DMG LVPOP {p}"]
+    if kind == "count_kpop":
+        return [f"DMG LKPOP {p}"]
+    if kind == "count_pushk":
+        return [f"DMG LPUSHK {p} {BIG} {h.sid}"]
+    if kind == "overfill":
+        out = []
+        for i in range(cap + 1):
+            out.append(f"DMG LPUSH {p} {BIG + i} {h.sid} {h.sid * 10}")
+            h.sid += 1
+        return out
+    if kind == "underfill_leaf":
+        return [f"DMG LTRUNC {p} {rng.choice([0, 1, max(0, cap // 2 - 1)])}"]
+    if kind == "underfill_branch":
+        return [f"DMG BTRUNC {max(1, bp)} {rng.choice([0, 1, max(0, cap // 2 - 1)])}"]
+    if kind == "keyout_lo":
+        return [f"DMG LK {max(1, p)} 0 {-BIG}"]
+    if kind == "keyout_hi":
+        return [f"DMG LLK {p} {BIG}"]
+    if kind == "child_pop":
+        return [f"DMG BCPOP {bp}"]
+    if kind == "child_dup":
+        return [f"DMG BCDUP {bp}"]
+    if kind == "badref_child":
+        return [f"DMG BREF {bp} {rng.choice([0, 1, 2])} {rng.choice([100000, 4294967295, 7777])}"]
+    if kind == "badref_root":
+        return [f"DMG ROOT {rng.choice('LB')} {rng.choice([100000, 4294967295])}"]
+    if kind == "chain_trunc":
+        return [f"DMG LNEXT {p} NULL"]
+    if kind == "chain_skip":
+        return [f"DMG LNEXT {p} p{p + 2}"]
+    if kind == "chain_misorder":
+        return [f"DMG LNEXT {p} p{p + 2}", f"DMG LNEXT {p + 2} p{p + 1}", f"DMG LNEXT {p + 1} p{p + 3}"]
+    if kind == "chain_unalloc":
+        return [f"DMG LNEXT {p} {rng.choice([100000, 4294967294])}"]
+    if kind == "orphan_leaf":
+        return ["DMG ORPHANL"]
+    if kind == "orphan_branch":
+        return ["DMG ORPHANB"]
+    return []
+
+
+def gen_c14(seed, shard, n_hist, tier):
+    rng = random.Random(f"C14-{seed}-{shard}")
+    out = []
+    for i in range(n_hist):
+        cap = rng.choice([4, 4, 5, 6, 7, 8, 16])
+        h = Hist(f"{shard}.{i}", "rust", cap)
+        U = build_valid(h, rng, cap)
+        h.add("V")
+        kind = DAMAGE_KINDS[(shard * n_hist + i) % len(DAMAGE_KINDS)] if rng.random() < 0.7 else rng.choice(DAMAGE_KINDS)
+        for l in damage_lines(kind, rng, cap, h):
+            h.add(l)
+        h.add("V")
+        h.add(f"TI {rng.randrange(U)} {h.sid} {h.sid * 10}")
+        h.sid += 1
+        h.add(f"TR {rng.randrange(U)}")
+        h.add("V")
+        out.append(h)
+    return out
+
+
+def gen_c15(seed, shard, n_hist, tier):
+    rng = random.Random(f"C15-{seed}-{shard}")
+    out = []
+    for i in range(n_hist):
+        cap = rng.choice([4, 4, 5, 6, 8])
+        h = Hist(f"{shard}.{i}", "rust", cap)
+        U = build_valid(h, rng, cap)
+        unsorted_possible = False
+        for _ in range(rng.choice([1, 1, 2, 3])):
+            p = rng.choice([0, 0, 1, 2, 3])
+            k = rng.choice(["LPUSHK", "LPUSHK", "LVPOP", "LKPOP", "LPUSH", "LTRUNC", "LK", "LNEXT_RAW", "LNEXT_FWD",
+                            "LNEXT_NULL", "FREEL", "FREEL_NEXT", "ORPHANL", "ROOT_NULL", "ROOT_RAW", "FREEB"])
+            if k in ("LPUSHK", "LPUSH", "LK"):
+                unsorted_possible = True
+            if k == "LPUSHK":
+                h.add(f"DMG LPUSHK {p} {rng.randrange(-5, U + 5)} {h.sid}")
+            elif k == "LPUSH":
+                h.add(f"DMG LPUSH {p} {rng.randrange(-5, U + 5)} {h.sid} {h.sid * 10}")
+            elif k == "LTRUNC":
+                h.add(f"DMG LTRUNC {p} {rng.choice([0, 1])}")
+            elif k == "LK":
+                h.add(f"DMG LK {p} {rng.choice([0, 1])} {rng.randrange(-5, U + 5)}")
+            elif k == "LNEXT_RAW":
+                h.add(f"DMG LNEXT {p} {rng.choice([12345, 100000, 4294967294])}")
+            elif k == "LNEXT_FWD":
+                h.add(f"DMG LNEXT {p} p{p + rng.choice([2, 3])}")
+            elif k == "LNEXT_NULL":
+                h.add(f"DMG LNEXT {p} NULL")
+            elif k == "FREEL":
+                h.add(f"DMG FREEL {p}")
+            elif k == "FREEL_NEXT":
+                h.add(f"DMG FREEL {p + 1}")
+            elif k == "ROOT_NULL":
+                h.add("DMG ROOT L 4294967295")
+            elif k == "ROOT_RAW":
+                h.add(f"DMG ROOT {rng.choice('LB')} {rng.choice([12345, 100000])}")
+            elif k == "FREEB":
+                h.add(f"DMG FREEB {rng.choice([0, 1])}")
+            else:
+                h.add(f"DMG {k} {p}" if k in ("LVPOP", "LKPOP") else f"DMG {k}")
+            h.sid += 1
+        # every reader
+        h.add("SL")
+        h.add("FL")
+        h.add("IT items,fast,keys,values 0:3 1:3 2:2 3:2 0:50 1:50 2:50 3:50")
+        # binary search on an unsorted slice is unspecified in std: lookups by key are only
+        # compared when the edits cannot have unsorted a node
+        if not unsorted_possible:
+            h.add(f"RG {rng.choice(KINDS)} {rng.randrange(-2, U + 2)} {rng.choice(KINDS)} {rng.randrange(-2, U + 2)}")
+            h.add(f"IR {rng.randrange(-2, U + 2)} -")
+            h.add(f"G {rng.randrange(U)}")
+        h.add(f"FP {rng.choice([0, 1, 2])} {rng.choice([0, 1, 5])} {rng.choice(KINDS)} {rng.randrange(U + 2)}")
+        h.add("V")
+        h.add("Q")
+        h.add("L")
+        out.append(h)
+    return out
